@@ -42,6 +42,7 @@ func runC09(c *Ctx, r *Report) {
 	r.Rule("C09.R3", "program-bounded loops: a Go loop in the evaluator whose trip count derives from a program integer re-enters the evaluator (context check) on every iteration, or its trip count is bounded by a size that passed the memory guard")
 	r.Rule("C09.R4", "guarded allocation: make / strings.Repeat / string concatenation sized by program values is dominated by the memory guard on that size; a guarded size that is a product of program values is protected against overflow; SizeOk rejects negative sizes")
 	r.Rule("C09.R6", "live figures: the value object.FreeMemory returns is computed from a debug.SetMemoryLimit(-1) query and a runtime.ReadMemStats reading made by that very call, and from no package-level variable")
+	r.Rule("C09.R7", "deadline inheritance: wherever package eval or extensions creates an eval.State (NewBlankState/NewState) in a function that has a running *State at hand, the new state's Context is assigned from a running state's Context")
 	r.Rule("C09.R5", "recovery: EvalOne defers a recover that resets the state, installs a per-input context from MaxDuration and defers its cancel; the wasm entry passes a depth and a duration limit")
 
 	stateT := c.TypeNamed("eval", "State")
@@ -416,6 +417,129 @@ func (c *Ctx) checkProgramLoopsAndAllocs(r *Report) {
 			r.Check(ok, "C09.R4", ssaFuncName(fn), kind+" sized by a program integer is dominated by the memory guard", c.Pos(in.Pos()),
 				"an allocation whose size a program chooses is not preceded by MustBeOk/MakeObjectSlice on that size: the process can be driven out of memory (fatal) or into a runtime panic")
 		})
+		// library calls whose result is not linear in any one operand (each match / verb can expand)
+		eachInstr(fn, func(in ssa.Instruction) {
+			call, ok := in.(*ssa.Call)
+			if !ok {
+				return
+			}
+			obj := calleeObj(call)
+			if obj == nil || obj.Pkg() == nil {
+				return
+			}
+			name := obj.Pkg().Path() + "." + obj.Name()
+			var operands []ssa.Value
+			args := call.Common().Args
+			switch name {
+			case "regexp.ReplaceAllString", "regexp.ReplaceAllLiteralString", "regexp.ReplaceAll", "regexp.ReplaceAllLiteral":
+				if len(args) == 3 {
+					operands = []ssa.Value{args[1], args[2]}
+				}
+			case "strings.ReplaceAll":
+				if len(args) == 3 {
+					operands = []ssa.Value{args[0], args[2]}
+				}
+			case "strings.Replace":
+				if len(args) == 4 {
+					operands = []ssa.Value{args[0], args[2]}
+				}
+			case "fmt.Sprintf":
+				if len(args) >= 1 && c.programChosenFormat(args[0], 0) {
+					operands = []ssa.Value{args[0]}
+				}
+			}
+			if len(operands) == 0 {
+				return
+			}
+			for _, o := range operands {
+				if _, isK := o.(*ssa.Const); isK {
+					return // a constant operand: the result is linear in the other
+				}
+			}
+			nAllocs++
+			okG := false
+			for _, g := range gs {
+				if !instrDominates(g.call, in) {
+					continue
+				}
+				// the guarded size depends on the length of an operand
+				seen := map[ssa.Value]bool{}
+				var has func(v ssa.Value) bool
+				has = func(v ssa.Value) bool {
+					if v == nil || seen[v] {
+						return false
+					}
+					seen[v] = true
+					if lc, ok := v.(*ssa.Call); ok {
+						if bi, ok := lc.Common().Value.(*ssa.Builtin); ok && bi.Name() == "len" {
+							for _, o := range operands {
+								if lc.Common().Args[0] == o {
+									return true
+								}
+							}
+						}
+					}
+					if x, ok := v.(ssa.Instruction); ok {
+						for _, op := range x.Operands(nil) {
+							if *op != nil && has(*op) {
+								return true
+							}
+						}
+					}
+					return false
+				}
+				if has(g.arg) {
+					okG = true
+				}
+			}
+			r.Check(okG, "C09.R4", ssaFuncName(fn), "library call "+name+" with program-chosen operands is dominated by the memory guard", c.Pos(in.Pos()),
+				"the result of "+name+" can be far larger than its arguments (every match, or a width in the format, expands) and no memory guard computed from their lengths precedes it: a short program exhausts memory")
+		})
+		// strings.Join of program strings: the guard's size accounts for the separator too
+		eachInstr(fn, func(in ssa.Instruction) {
+			call, ok := in.(*ssa.Call)
+			if !ok || stdName(call) != "strings.Join" {
+				return
+			}
+			sep := call.Common().Args[1]
+			if _, isK := sep.(*ssa.Const); isK {
+				return
+			}
+			nAllocs++
+			why := "no memory guard dominates the join"
+			okJ := false
+			for _, g := range gs {
+				if !instrDominates(g.call, in) {
+					continue
+				}
+				why = "the guarded size does not depend on the length of the separator that is joined in: a result made almost only of separators is not accounted for"
+				seen := map[ssa.Value]bool{}
+				var has func(v ssa.Value) bool
+				has = func(v ssa.Value) bool {
+					if v == nil || seen[v] {
+						return false
+					}
+					seen[v] = true
+					if lc, ok := v.(*ssa.Call); ok {
+						if bi, ok := lc.Common().Value.(*ssa.Builtin); ok && bi.Name() == "len" && lc.Common().Args[0] == sep {
+							return true
+						}
+					}
+					if x, ok := v.(ssa.Instruction); ok {
+						for _, op := range x.Operands(nil) {
+							if *op != nil && has(*op) {
+								return true
+							}
+						}
+					}
+					return false
+				}
+				if has(g.arg) {
+					okJ = true
+				}
+			}
+			r.Check(okJ, "C09.R4", ssaFuncName(fn), "strings.Join with a program-chosen separator is guarded on a size that includes the separator", c.Pos(in.Pos()), why)
+		})
 		// guarded products: overflow protection
 		for _, g := range gs {
 			mul := findMul(g.arg)
@@ -539,6 +663,102 @@ func (c *Ctx) checkProgramLoopsAndAllocs(r *Report) {
 		r.Check(len(globals) == 0, "C09.R6", fname, "no memoised figure", c.Pos(fm.Pos()),
 			"the value FreeMemory returns depends on package-level state ("+strings.Join(globals, ", ")+"): a figure captured earlier stands in for the live one")
 		r.Floor("C09.R6", 3)
+	}
+	// R7: a state created while a program is running inherits that program's deadline
+	{
+		stateT := c.TypeNamed("eval", "State")
+		ctxIdx := fieldIndex(stateT, "Context")
+		ctors := []*types.Func{c.Fn("eval", "NewBlankState"), c.Fn("eval", "NewState")}
+		isStatePtr := func(t types.Type) bool {
+			p, ok := t.(*types.Pointer)
+			if !ok {
+				return false
+			}
+			n, ok := p.Elem().(*types.Named)
+			return ok && n.Obj() == stateT.Obj()
+		}
+		n7 := 0
+		for _, fn := range c.ModuleSSAFuncs() {
+			if fn.Pkg == nil {
+				continue
+			}
+			if pk := shortPkg(fn.Pkg.Pkg); pk != "eval" && pk != "extensions" {
+				continue
+			}
+			// is a running state at hand? (a *State parameter/receiver, or a value asserted to *State)
+			hasState := false
+			for _, p := range fn.Params {
+				if isStatePtr(p.Type()) {
+					hasState = true
+				}
+			}
+			eachInstr(fn, func(in ssa.Instruction) {
+				if ta, ok := in.(*ssa.TypeAssert); ok && isStatePtr(ta.AssertedType) {
+					hasState = true
+				}
+			})
+			if !hasState {
+				continue
+			}
+			for _, call := range callsIn(fn, ctors...) {
+				cv, ok := call.(*ssa.Call)
+				if !ok {
+					continue
+				}
+				n7++
+				inherits := false
+				for _, ref := range *cv.Referrers() {
+					fa, ok := ref.(*ssa.FieldAddr)
+					if !ok || fa.Field != ctxIdx {
+						continue
+					}
+					for _, r2 := range *fa.Referrers() {
+						st, ok := r2.(*ssa.Store)
+						if !ok || st.Addr != ssa.Value(fa) {
+							continue
+						}
+						// the stored value comes (possibly through a phi) from another state's Context
+						seen := map[ssa.Value]bool{}
+						var from func(v ssa.Value) bool
+						from = func(v ssa.Value) bool {
+							if v == nil || seen[v] {
+								return false
+							}
+							seen[v] = true
+							if ld, ok := v.(*ssa.UnOp); ok {
+								if lfa, ok := ld.X.(*ssa.FieldAddr); ok && lfa.Field == ctxIdx && isStatePtr(lfa.X.Type()) && lfa.X != ssa.Value(cv) {
+									return true
+								}
+								if al, ok := ld.X.(*ssa.Alloc); ok {
+									for _, ar := range *al.Referrers() {
+										if ast, ok := ar.(*ssa.Store); ok && ast.Addr == ssa.Value(al) && from(ast.Val) {
+											return true
+										}
+									}
+								}
+							}
+							if phi, ok := v.(*ssa.Phi); ok {
+								for _, e := range phi.Edges {
+									if from(e) {
+										return true
+									}
+								}
+							}
+							return false
+						}
+						if from(st.Val) {
+							inherits = true
+						}
+					}
+				}
+				r.Check(inherits, "C09.R7", ssaFuncName(fn), "a state created next to a running one inherits its Context", c.Pos(cv.Pos()),
+					"the new eval.State evaluates program text (nested eval/unjson, macro bodies) but its Context is never set from the state already running: evalInternal only tests a non-nil Context, so that evaluation ignores the deadline (unjson(\"for true {}\") never returns)")
+			}
+		}
+		if n7 < 2 {
+			r.Undecided("C09.R7: only %d state constructions next to a running state found (EvalString and extendMacroEnv expected)", n7)
+		}
+		r.Floor("C09.R7", 2)
 	}
 	if nLoops < 2 {
 		r.Undecided("C09.R3: only %d program-bounded loops found", nLoops)
@@ -685,4 +905,33 @@ func init() {
 		assume:  []string{"the Go runtime honours GOMEMLIMIT approximately; the guard's adequacy as a number (256-object free pass, ObjectSize) is not judged", "allocations proportional to data that already exists (copies, Modify, JSON) are not obligations"},
 		run:     runC09,
 	})
+}
+
+// programChosenFormat: the format string is not a constant here, nor a parameter that every caller binds
+// to a constant (Errorf-style wrappers).
+func (c *Ctx) programChosenFormat(v ssa.Value, depth int) bool {
+	if _, isK := v.(*ssa.Const); isK {
+		return false
+	}
+	if p, ok := v.(*ssa.Parameter); ok && depth < 3 {
+		sites, ok := c.argsAtCallSites(p)
+		if !ok || len(sites) == 0 {
+			return false // no caller in the module: not driven by program text
+		}
+		for _, s := range sites {
+			if c.programChosenFormat(s.v, depth+1) {
+				return true
+			}
+		}
+		return false
+	}
+	if phi, ok := v.(*ssa.Phi); ok && depth < 3 {
+		for _, e := range phi.Edges {
+			if c.programChosenFormat(e, depth+1) {
+				return true
+			}
+		}
+		return false
+	}
+	return true
 }
